@@ -43,6 +43,20 @@ var fnSpecs = []groupSpec{
 		Lean: "tryTrimIpv6Brackets", Params: "(s : Bytes)", Ret: "Bytes",
 		Vars: map[string]ty{"s": tBytes},
 	}},
+	{Group: "Upstream", fnSpec: fnSpec{
+		File: "pkg/upstream/upstream.go", Func: "ExchangeContext", Recv: "udpWithFallback",
+		Lean: "udpWithFallbackExchange", Params: "(udp tcp : Bytes → Except Nat Bytes) (q : Bytes)", Ret: "Except Nat Bytes × Bool",
+		Vars: map[string]ty{"q": tBytes},
+		Expr: map[string]lx{"msgTruncated(*r)": b("(msgTruncated r)")},
+		Stmt: map[string]string{
+			"r, err := u.u.ExchangeContext(ctx, q)": "match udp q with\n| .error e => (.error e, false)\n| .ok r =>",
+			"return u.t.ExchangeContext(ctx, q)":    "return (tcp q, true)",
+			"return r, nil":                         "return (.ok r, false)",
+		},
+		StmtVars: map[string]map[string]ty{"r, err := u.u.ExchangeContext(ctx, q)": {"r": tBytes}},
+		Skip:     []string{"if err != nil { return nil, err }", "pool.ReleaseBuf(r)"},
+		Doc:      "; the two transports are parameters; the Bool says whether the TCP transport was called; the UDP error propagates (the skipped `if err != nil`)",
+	}},
 	// ---------------------------------------------------------------- C16
 	{Group: "Framing", fnSpec: fnSpec{
 		File: "pkg/upstream/transport/utils.go", Func: "copyMsgWithLenHdr",
